@@ -148,18 +148,19 @@ enum Judged {
     Violation { sig: Value, detail: Value },
 }
 
-const VARIANTS: [(&str, Sem); 4] = [
-    ("negation_of_an_erroring_filter_expression_counts_as_true", Sem { error_is_false: true, non_numeric_is_zero: false, bind_unbound_is_empty: false, avg_of_nothing_is_unbound: false }),
-    ("ordering_comparison_on_non_numeric_term_uses_zero", Sem { error_is_false: false, non_numeric_is_zero: true, bind_unbound_is_empty: false, avg_of_nothing_is_unbound: false }),
-    ("concat_over_unbound_variable_yields_empty_string", Sem { error_is_false: false, non_numeric_is_zero: false, bind_unbound_is_empty: true, avg_of_nothing_is_unbound: false }),
-    ("avg_over_empty_group_is_unbound", Sem { error_is_false: false, non_numeric_is_zero: false, bind_unbound_is_empty: false, avg_of_nothing_is_unbound: true }),
+const VARIANTS: [(&str, Sem); 5] = [
+    ("graph_variable_is_bound_before_the_filters_of_its_graph_block", Sem { error_is_false: false, non_numeric_is_zero: false, bind_unbound_is_empty: false, avg_of_nothing_is_unbound: false, graph_variable_prebound: true }),
+    ("negation_of_an_erroring_filter_expression_counts_as_true", Sem { error_is_false: true, non_numeric_is_zero: false, bind_unbound_is_empty: false, avg_of_nothing_is_unbound: false, graph_variable_prebound: false }),
+    ("ordering_comparison_on_non_numeric_term_uses_zero", Sem { error_is_false: false, non_numeric_is_zero: true, bind_unbound_is_empty: false, avg_of_nothing_is_unbound: false, graph_variable_prebound: false }),
+    ("concat_over_unbound_variable_yields_empty_string", Sem { error_is_false: false, non_numeric_is_zero: false, bind_unbound_is_empty: true, avg_of_nothing_is_unbound: false, graph_variable_prebound: false }),
+    ("avg_over_empty_group_is_unbound", Sem { error_is_false: false, non_numeric_is_zero: false, bind_unbound_is_empty: false, avg_of_nothing_is_unbound: true, graph_variable_prebound: false }),
 ];
 
 fn judge(db: &mut kolibrie::sparql_database::SparqlDatabase, snap: &ds::Dataset, q: &Select, text: &str, legacy: bool, class: &str, ctx: &mut Ctx) -> Judged {
     let ev = Ev::new(snap, q);
     let ans = match ev.eval_select_inner(q, &None) {
         Ok(a) => a,
-        Err(EvalError::TooBig) => return Judged::Skipped,
+        Err(EvalError::TooBig) | Err(EvalError::NonNumericAggregate) => return Judged::Skipped,
     };
     let cols = ans.columns.clone();
     let mut aggs = agg_columns(q);
@@ -195,7 +196,7 @@ fn judge(db: &mut kolibrie::sparql_database::SparqlDatabase, snap: &ds::Dataset,
         }
     }
     if cause == "unattributed" {
-        let all = Sem { error_is_false: true, non_numeric_is_zero: true, bind_unbound_is_empty: true, avg_of_nothing_is_unbound: true };
+        let all = Sem { error_is_false: true, non_numeric_is_zero: true, bind_unbound_is_empty: true, avg_of_nothing_is_unbound: true, graph_variable_prebound: true };
         if let Ok(a2) = Ev::with_sem(snap, q, all).eval_select_inner(q, &None) {
             if legal(q, &got, &canon(&a2.full), ctx).ok {
                 cause = "several_lexical_readings_of_expression_errors_combined".to_string();
